@@ -203,4 +203,273 @@ theorem completeFailure_locBelow (e0 e : Engine) (id : Nat) (k : String) (h : Lo
   let r := completeFailure_loc e id k h.2
   ⟨r.1.trans h.1, r.2⟩
 
+theorem locBelow_refl (e : Engine) (hc : e.current = none) : LocBelow e e := ⟨Sp.refl _, hc⟩
+
+theorem LocBelow.trans {a b c : Engine} (h1 : LocBelow a b) (h2 : LocBelow b c) : LocBelow a c := ⟨h2.1.trans h1.1, h2.2⟩
+
+/-- close handler, part 1 -/
+theorem closeFailStage_loc (e3 : Engine) (hc : e3.current = none) : LocBelow e3 e3.closeFailStage.1 := by
+  let e4 : Engine := { e3 with highQ := [] }
+  let failures := e3.highQ.filter (fun id => match e4.op? id with | some o => o.pubrel.isNone | none => true)
+  let x5 := e4.failAllIgnoringDisconnect failures "ConnectionClosed"
+  let e6 : Engine := { x5.1 with pendingWC := [] }
+  let pr := e6.partitionByPolicy x5.1.pendingWC
+  let e7 : Engine := { e6 with userQ := e6.userQ ++ pr.1 }
+  let x8 := e7.failAllIgnoringDisconnect pr.2 "OfflineQueuePolicyFailed"
+  have b4 : LocBelow e3 e4 := ⟨Sp.of_eq (loc_of_fields e4 e3 rfl rfl rfl rfl rfl rfl), hc⟩
+  have b5 : LocBelow e3 x5.1 := failAllIgnoringDisconnect_keeps (LocBelow e3) (completeFailure_locBelow e3) _ failures e4 b4
+  -- what was written but not flushed and passes the policy goes to the back of the user queue; the rest is failed below
+  have b7 : LocBelow x5.1 e7 := by
+    refine ⟨?_, b5.2⟩
+    have hsub := (partition_sublist e6 x5.1.pendingWC).1
+    have hcur : e7.curL = x5.1.curL := by unfold Engine.curL; rfl
+    unfold Engine.loc
+    rw [hcur]
+    show Sp ((x5.1.userQ ++ pr.1) ++ x5.1.resubQ ++ [] ++ vals x5.1.pendingPub ++ vals x5.1.pendingNonPub ++ x5.1.curL)
+      (x5.1.userQ ++ x5.1.resubQ ++ x5.1.pendingWC ++ vals x5.1.pendingPub ++ vals x5.1.pendingNonPub ++ x5.1.curL)
+    intro x
+    have hle : pr.1.count x ≤ x5.1.pendingWC.count x := hsub.count_le x
+    simp only [List.count_append, List.count_nil]
+    omega
+  have b8 : LocBelow e3 x8.1 := failAllIgnoringDisconnect_keeps (LocBelow e3) (completeFailure_locBelow e3) _ pr.2 e7 (b5.trans b7)
+  exact failExceeding_keeps (LocBelow e3) (completeFailure_locBelow e3) x8.1 b8
+
+structure PubFold (r en : Engine) (l : List Nat) : Prop where
+  resubQ : r.resubQ = en.resubQ ++ l
+  userQ : r.userQ = en.userQ
+  pendingWC : r.pendingWC = en.pendingWC
+  pendingPub : r.pendingPub = en.pendingPub
+  pendingNonPub : r.pendingNonPub = en.pendingNonPub
+  current : r.current = en.current
+
+theorem pubFold_fields : ∀ (l : List Nat) (en : Engine),
+    PubFold (l.foldl (fun en id => ({ en.setDupFlag id true with resubQ := en.resubQ ++ [id] } : Engine)) en) en l := by
+  intro l
+  induction l with
+  | nil => intro en; exact ⟨by simp, rfl, rfl, rfl, rfl, rfl⟩
+  | cons x xs ih =>
+    intro en
+    have h := ih ({ en.setDupFlag x true with resubQ := en.resubQ ++ [x] } : Engine)
+    have s0 := setDupFold_same true [x] en
+    simp only [List.foldl] at s0
+    simp only [List.foldl]
+    exact ⟨by rw [h.resubQ]; simp, h.userQ.trans s0.userQ, h.pendingWC.trans s0.pendingWC, h.pendingPub.trans s0.pendingPub,
+      h.pendingNonPub.trans s0.pendingNonPub, h.current.trans s0.current⟩
+
+structure SubFold (r en : Engine) (l : List Nat) : Prop where
+  userQ : r.userQ = l.reverse ++ en.userQ
+  resubQ : r.resubQ = en.resubQ
+  pendingWC : r.pendingWC = en.pendingWC
+  pendingPub : r.pendingPub = en.pendingPub
+  pendingNonPub : r.pendingNonPub = en.pendingNonPub
+  current : r.current = en.current
+
+theorem subFold_fields : ∀ (l : List Nat) (en : Engine),
+    SubFold (l.foldl (fun en id => ({ en with userQ := id :: en.userQ } : Engine)) en) en l := by
+  intro l
+  induction l with
+  | nil => intro en; exact ⟨by simp, rfl, rfl, rfl, rfl, rfl⟩
+  | cons x xs ih =>
+    intro en
+    have h := ih ({ en with userQ := x :: en.userQ } : Engine)
+    simp only [List.foldl]
+    exact ⟨by rw [h.userQ]; simp, h.resubQ, h.pendingWC, h.pendingPub, h.pendingNonPub, h.current⟩
+
+theorem failAll_userQ (k : String) (ids : List Nat) (e : Engine) : (e.failAll ids k).1.userQ = e.userQ := (failAll_same k ids e).userQ
+
+/-- close handler, part 2: afterwards everything waits in one of the two queues -/
+theorem closeRequeueStage_loc (e9 : Engine) (hc : e9.current = none) :
+    Sp (e9.closeRequeueStage.1.userQ ++ e9.closeRequeueStage.1.resubQ) e9.loc := by
+  let e10 := (vals e9.pendingPub).foldl (fun en id => ({ en.setDupFlag id true with resubQ := en.resubQ ++ [id] } : Engine)) ({ e9 with pendingPub := [] } : Engine)
+  have f10 := pubFold_fields (vals e9.pendingPub) ({ e9 with pendingPub := [] } : Engine)
+  let e11 := (vals e10.pendingNonPub).foldl (fun en id => ({ en with userQ := id :: en.userQ } : Engine)) ({ e10 with pendingNonPub := [] } : Engine)
+  have f11 := subFold_fields (vals e10.pendingNonPub) ({ e10 with pendingNonPub := [] } : Engine)
+  let e12 : Engine := { e11 with userQ := [] }
+  let pr := e12.partitionByPolicy e11.userQ
+  let x13 := e12.failAll pr.2 "OfflineQueuePolicyFailed"
+  have hres : e9.closeRequeueStage.1 = { x13.1 with userQ := x13.1.userQ ++ pr.1 } := rfl
+  rw [hres]
+  have hu13 : x13.1.userQ = [] := failAll_userQ _ _ e12
+  have hr13 : x13.1.resubQ = e11.resubQ := (failAll_same "OfflineQueuePolicyFailed" pr.2 e12).resubQ
+  show Sp ((x13.1.userQ ++ pr.1) ++ x13.1.resubQ) e9.loc
+  rw [hu13, hr13]
+  have hsub := (partition_sublist e12 e11.userQ).1
+  -- what the two folds built
+  have hu11 : e11.userQ = (vals e9.pendingNonPub).reverse ++ e9.userQ := by
+    rw [f11.userQ]
+    show (vals e10.pendingNonPub).reverse ++ e10.userQ = _
+    rw [f10.pendingNonPub, f10.userQ]
+  have hr11 : e11.resubQ = e9.resubQ ++ vals e9.pendingPub := by
+    rw [f11.resubQ]
+    show e10.resubQ = _
+    rw [f10.resubQ]
+  intro x
+  have hle : pr.1.count x ≤ e11.userQ.count x := hsub.count_le x
+  rw [hu11] at hle
+  unfold Engine.loc
+  have hcl : e9.curL = [] := by unfold Engine.curL; rw [hc]
+  rw [hr11, hcl]
+  simp only [List.count_append, List.count_nil, List.nil_append, List.count_reverse] at hle ⊢
+  omega
+
+/-! ### the operation being written when the connection closes -/
+
+theorem curL_count_le (e : Engine) (x : Nat) : e.curL.count x ≤ 1 := by
+  unfold Engine.curL
+  cases e.current with
+  | none => simp
+  | some id =>
+    simp only []
+    split
+    · simp
+    · by_cases hx : id = x
+      · subst hx; simp
+      · have : (id == x) = false := by simpa using hx
+        simp [List.count_cons, this]
+
+theorem curL_of_not_pending (e : Engine) (id : Nat) (hc : e.current = some id) (hnp : id ∉ vals e.pendingPub) : e.curL = [id] := by
+  unfold Engine.curL; rw [hc]; simp [hnp]
+
+/-- nothing is being written any more; the queues may have been rearranged by `f` as long as nothing gains an occurrence -/
+theorem loc_clear_current (e e' : Engine) (h1 : e'.userQ = e.userQ) (h2 : e'.resubQ = e.resubQ) (h3 : e'.pendingWC = e.pendingWC)
+    (h4 : (vals e'.pendingPub).Sublist (vals e.pendingPub)) (h5 : (vals e'.pendingNonPub).Sublist (vals e.pendingNonPub))
+    (h6 : e'.current = none) : Sp e'.loc e.loc := by
+  intro x
+  have a := h4.count_le x
+  have b := h5.count_le x
+  have hcl : e'.curL = [] := by unfold Engine.curL; rw [h6]
+  unfold Engine.loc
+  rw [h1, h2, h3, hcl]
+  simp only [List.count_append, List.count_nil]
+  omega
+
+theorem loc_move_to_user (e : Engine) (id : Nat) (hc : e.current = some id) (hnp : id ∉ vals e.pendingPub) :
+    Sp ({ ({ e with userQ := id :: e.userQ } : Engine) with current := none } : Engine).loc e.loc := by
+  intro x
+  have hcl := curL_of_not_pending e id hc hnp
+  unfold Engine.loc
+  rw [hcl]
+  show List.count x ((id :: e.userQ) ++ e.resubQ ++ e.pendingWC ++ vals e.pendingPub ++ vals e.pendingNonPub ++ []) ≤ _
+  simp only [List.count_append, List.count_nil, List.count_cons]
+  omega
+
+theorem loc_move_to_resub (e : Engine) (id : Nat) (hc : e.current = some id) (hnp : id ∉ vals e.pendingPub) :
+    Sp ({ ({ e with resubQ := id :: e.resubQ } : Engine) with current := none } : Engine).loc e.loc := by
+  intro x
+  have hcl := curL_of_not_pending e id hc hnp
+  unfold Engine.loc
+  rw [hcl]
+  show List.count x (e.userQ ++ (id :: e.resubQ) ++ e.pendingWC ++ vals e.pendingPub ++ vals e.pendingNonPub ++ []) ≤ _
+  simp only [List.count_append, List.count_nil, List.count_cons]
+  omega
+
+theorem completeFailure_loc_clear (e : Engine) (id : Nat) (k : String) :
+    Sp ({ (e.completeFailure id k).1 with current := none } : Engine).loc e.loc := by
+  cases ho : e.op? id with
+  | none =>
+    simp only [Engine.completeFailure, ho]
+    exact loc_clear_current e _ rfl rfl rfl (List.Sublist.refl _) (List.Sublist.refl _) rfl
+  | some o =>
+    obtain ⟨s', hv, _⟩ := completeFailure_view e id k o ho
+    refine loc_clear_current e _ (congrArg View.userQ hv) (congrArg View.resubQ hv) (congrArg View.pendingWC hv) ?_ ?_ rfl
+    · show (vals (e.completeFailure id k).1.pendingPub).Sublist _
+      rw [show (e.completeFailure id k).1.pendingPub = releaseFrom e.pendingPub o.packetId from congrArg View.pendingPub hv]
+      exact vals_releaseFrom_sublist _ _
+    · show (vals (e.completeFailure id k).1.pendingNonPub).Sublist _
+      rw [show (e.completeFailure id k).1.pendingNonPub = releaseFrom e.pendingNonPub o.packetId from congrArg View.pendingNonPub hv]
+      exact vals_releaseFrom_sublist _ _
+
+/-- `apply_connection_closed_to_current_operation`: the operation that was being written goes back to a queue (or fails),
+    nothing gains an occurrence -/
+theorem closeCurrent_loc (e : Engine) (hok : e.core.Ok) (hb : Big [] [] e.view) (h : Extra false [] e.view) :
+    Sp e.closeCurrent.1.loc e.loc := by
+  unfold Engine.closeCurrent
+  cases hc : e.current with
+  | none => exact loc_clear_current e _ rfl rfl rfl (List.Sublist.refl _) (List.Sublist.refl _) rfl
+  | some id =>
+    simp only []
+    cases ho : e.op? id with
+    | none => exact loc_clear_current e _ rfl rfl rfl (List.Sublist.refl _) (List.Sublist.refl _) rfl
+    | some o =>
+      simp only []
+      have key : ∀ x : Engine × Res, x.2 = .ok → Sp ({ x.1 with current := none } : Engine).loc e.loc →
+          Sp (if x.2.isOk = true then (({ x.1 with current := none } : Engine), Res.ok) else (x.1, x.2)).1.loc e.loc := by
+        intro x hx hs; rw [hx]; exact hs
+      have hfail : ∀ k, isDisconnect o.packet = false → (e.completeFailure id k).2 = .ok := by
+        intro k hnd
+        rcases completeFailure_result e id k hok with a | ⟨o', ho', hd, _⟩
+        · exact a
+        · rw [ho] at ho'; cases ho'; rw [hnd] at hd; cases hd
+      -- an operation that waits in the pending-publish table is an acknowledged publish
+      have pend_kind : id ∈ vals e.pendingPub → isAckedPublish o.packet = true := by
+        intro hm
+        obtain ⟨k, hk⟩ := lookup_of_mem_vals hb.tps hm
+        obtain ⟨o2, ho2, _, hk2⟩ := hb.tp k id hk
+        rw [show e.view.ops.lookup id = some o from ho] at ho2; cases ho2
+        exact hk2
+      apply key
+      · split
+        · rename_i hp; split
+          · rfl
+          · exact hfail _ (by rw [hp]; rfl)
+        · rename_i hp; split
+          · rfl
+          · exact hfail _ (by rw [hp]; rfl)
+        · rename_i p hp
+          split
+          · split <;> rfl
+          · split
+            · rfl
+            · split
+              · rfl
+              · exact hfail _ (by rw [hp]; rfl)
+        · rcases completeFailure_result e id "ConnectionClosed" hok with a | ⟨o', _, _, a⟩
+          · show ignoreUserDisconnect (e.completeFailure id "ConnectionClosed").2 = .ok
+            rw [a]; rfl
+          · show ignoreUserDisconnect (e.completeFailure id "ConnectionClosed").2 = .ok
+            rw [a]; rfl
+      · split
+        · rename_i sp hp
+          have hnp : id ∉ vals e.pendingPub := fun hm => by have := pend_kind hm; rw [hp] at this; cases this
+          split
+          · exact loc_move_to_user e id hc hnp
+          · exact completeFailure_loc_clear e id _
+        · rename_i sp hp
+          have hnp : id ∉ vals e.pendingPub := fun hm => by have := pend_kind hm; rw [hp] at this; cases this
+          split
+          · exact loc_move_to_user e id hc hnp
+          · exact completeFailure_loc_clear e id _
+        · rename_i p hp
+          split
+          · split
+            · exact loc_clear_current e _ rfl rfl rfl (List.Sublist.refl _) (List.Sublist.refl _) rfl
+            · rename_i hlk
+              have hnp : id ∉ vals e.pendingPub := by
+                intro hm
+                obtain ⟨k, hk⟩ := lookup_of_mem_vals hb.tps hm
+                obtain ⟨o2, ho2, hpid, _⟩ := hb.tp k id hk
+                rw [show e.view.ops.lookup id = some o from ho] at ho2; cases ho2
+                have h4 := hb.p4 id o k ho hpid
+                rw [hp] at h4
+                have : p.packetId = k := h4
+                apply hlk
+                rw [this]
+                simp [show e.pendingPub.lookup k = some id from hk]
+              exact loc_move_to_resub e id hc hnp
+          · split
+            · exact loc_clear_current e _ rfl rfl rfl (List.Sublist.refl _) (List.Sublist.refl _) rfl
+            · rename_i hq2
+              split
+              · have hnp : id ∉ vals e.pendingPub := by
+                  intro hm
+                  have hpr := h.x1c rfl id hc hm o ho
+                  have hq := h.x8 id o ho hpr
+                  rw [hp] at hq
+                  apply hq2
+                  simp only [publishQos, Option.some.injEq] at hq
+                  simp [hq, hpr]
+                exact loc_move_to_user e id hc hnp
+              · exact completeFailure_loc_clear e id _
+        · exact completeFailure_loc_clear e id _
+
 end GV
